@@ -46,8 +46,10 @@ func (p *C09) Prepare(env *Env, tier string, seed uint64) error {
 		huge := [][]byte{
 			append(bytes.Repeat([]byte(";\n"), 20_000_000), []byte("C[1]\n")...),
 			append(bytes.Repeat([]byte(" \n\t"), 10_000_000), []byte("C[1]\n")...),
-			[]byte("C" + strings.Repeat("m", 30_000_000) + "[1]"),
-			[]byte("C[1]{txt=" + strings.Repeat("a ", 15_000_000) + "}"),
+			// (a single token of that size is not generated: ybase copies its token
+			// buffer for every rune it reads, which is quadratic real time while the
+			// logical clock stays far within budget; see DESIGN 13)
+			append(bytes.Repeat([]byte("C[1] "), 4_000_000), '\n'),
 		}
 		for i, in := range huge {
 			argv := []string{"text", "parse"}
@@ -470,6 +472,65 @@ func (p *C09) genDictUse(r *model.Rand) (Base, string) {
 	if r.Chance(1, 4) {
 		return p.genAttrUse(r), ""
 	}
+	if r.Chance(1, 5) {
+		// a long, loop-free extends chain that is actually used
+		depth := model.Pick(r, []int{20, 33, 47, 60, 200})
+		var sb strings.Builder
+		sb.WriteString("- name: D0\n  meta:\n    display: d0\n  attributes:\n    - Perfect1\n")
+		for i := 1; i <= depth; i++ {
+			fmt.Fprintf(&sb, "- name: D%d\n  meta:\n    display: d%d\n  extends: D%d\n", i, i, i-1)
+			if i%7 == 0 {
+				sb.WriteString("  attributes:\n    - Major3\n")
+			}
+		}
+		top := fmt.Sprintf("d%d", depth)
+		var b Base
+		if r.Chance(1, 3) {
+			b = Base{Argv: []string{"info", "chord", "describe", "-t", "C" + top}, Class: "info"}
+		} else {
+			cmd := model.Pick(r, [][]string{{"write"}, {"write", "event"}})
+			b = Base{Argv: append([]string{}, cmd...), Input: []byte("- chord:\n    degree: \"1\"\n    name: \"" + top + "\"\n  values:\n    - \"1\"\n"), InputArg: true, Class: "doc"}
+		}
+		b.Files = map[string]*simrt.FileSpec{"/sim/deep.yml": {Data: []byte(sb.String())}}
+		b.Argv = append(b.Argv, "--chord", "/sim/deep.yml")
+		return b, top
+	}
+	if r.Chance(1, 5) {
+		// two files whose names and display symbols cross: a faulty chord in one
+		// file sits behind a name another file's display symbol also claims
+		bad := model.Pick(r, []string{
+			"- name: Twist\n  meta:\n    display: tw\n  extends: Twist\n",
+			"- name: Twist\n  meta:\n    display: tw\n  extends: tw\n",
+			"- name: Twist\n  meta:\n    display: tw\n  extends: tw\n  attributes:\n    - Augmented4\n",
+			"- name: Twist\n  meta:\n    display: tw\n  extends: Nowhere\n",
+			"- name: Twist\n  meta:\n    display: tw\n  attributes:\n    - NoSuchAttr\n",
+			"- name: Twist\n  meta:\n    display: tw\n  extends: Other\n- name: Other\n  meta:\n    display: ot\n  extends: Twist\n",
+		})
+		good := model.Pick(r, []string{
+			"- name: Cover\n  meta:\n    display: Twist\n  attributes:\n    - Perfect1\n",
+			"- name: tw\n  meta:\n    display: Twist\n  attributes:\n    - Perfect1\n",
+			"- name: Cover\n  meta:\n    display: tw\n  attributes:\n    - Perfect1\n",
+		})
+		nm := model.Pick(r, []string{"Twist", "tw", "Cover"})
+		var b Base
+		if r.Chance(1, 2) {
+			b = Base{Argv: []string{"info", "chord", "describe", "-t", "C_" + nm}, Class: "info"}
+		} else {
+			cmd := model.Pick(r, [][]string{{"write"}, {"write", "event"}, {"info", "chord", "list"}})
+			b = Base{Argv: append([]string{}, cmd...), Class: "info"}
+			if cmd[0] == "write" {
+				b.Input = []byte("- chord:\n    degree: \"1\"\n    name: \"" + nm + "\"\n  values:\n    - \"1\"\n")
+				b.InputArg, b.Class = true, "doc"
+			}
+		}
+		b.Files = map[string]*simrt.FileSpec{"/sim/one.yml": {Data: []byte(bad)}, "/sim/two.yml": {Data: []byte(good)}}
+		if r.Chance(1, 2) {
+			b.Argv = append(b.Argv, "--chord", "/sim/one.yml", "--chord", "/sim/two.yml")
+		} else {
+			b.Argv = append(b.Argv, "--chord", "/sim/two.yml", "--chord", "/sim/one.yml")
+		}
+		return b, nm
+	}
 	d := model.Pick(r, dicts)
 	nm := model.Pick(r, d.names)
 	path := "/sim/userdict.yml"
@@ -711,7 +772,7 @@ func (p *C09) Generate(seed uint64, run int) *Case {
 		return c
 	}
 	var b Base
-	switch r.Intn(21) {
+	switch r.Intn(22) {
 	case 0, 1, 2, 3, 4, 5, 6:
 		b = p.w.GenText(r, r.Chance(1, 50))
 	case 7, 8, 9, 10, 11, 12, 13:
@@ -723,7 +784,7 @@ func (p *C09) Generate(seed uint64, run int) *Case {
 		t := model.Pick(r, []string{"C", "Cm", "C_7", "C;", "C_", "C{", "C[", "", "H", "Cm7/", "C/E", "R", "C]", "C#", "C♭m", "1", "C C", "C;x\n", "C{a", "C_7;", "Cm{txt=a"})
 		b = Base{Argv: []string{"info", "chord", "describe", "-t", t}, Class: "info"}
 		c.Labels = append(c.Labels, "fault:F11:flag:-t")
-	case 19:
+	case 19, 21:
 		// a faulty chord dictionary whose entries the command actually uses
 		b, _ = p.genDictUse(r)
 		c.Labels = append(c.Labels, "fault:F10:dictionary")
